@@ -97,6 +97,11 @@ TRUSTED = [
     "influence of labels on values is a disagreement",
     "C(A, levels=[…]): the nominated levels are modelled as categories declared for the column (in the code they also "
     "override recorded categories; a fit records exactly these levels, so both coincide on every fitted spec)",
+    "`hashed(v, levels=L)` is modelled as the categorical (treatment) coding, over the nominated levels 0..L-1, of the column "
+    "of per-cell buckets; md5 and the text of a cell (`str` of the cell's own value) are parameters computed by the harness "
+    "cell by cell, independently of the library; the levels live in the encoder's closure, not in encoder_state (the model's "
+    "entry for such a factor is not compared); cases with null cells, and hashed factors that do not span the intercept under "
+    "ensure_full_rank, are outside the model (oracle only); the storage dtype / container of a column is not an input of the model",
     "bs/cr/cc/poly of a dict-valued or 2-D argument (dict of dicts, dict of arrays), sympy/polars paths, back-quoted "
     "variable names inside stateful calls (aliases of sanitize_variable_names) are outside the model",
 ]
@@ -140,6 +145,12 @@ RULE = (
     "order (sorted by astype('category'), reversed, rotated, ordered) or as text, for every coding incl. contr.poly and "
     "interactions; oracle: equal to the dtype-blind twin (columns given as plain text) and to the expected rows. "
     "Streams `dict` / `sparse`: the decorator called directly on dicts of columns / scipy.sparse matrices. "
+    "Stream `cells`: `hashed(v, levels=2..9[, spans_intercept=True])` (alone, `:x`, next to center / scale / standardize / "
+    "poly / bs / cr / C(a)) over a column stored as int64 / int32 / Int64 / Int32 / UInt8 (pandas masked) / int64[pyarrow] / "
+    "float64 / text, nulls in 60% of the nullable storages, in a pandas frame or a pyarrow table, fitted on all 4-9 rows, "
+    "replayed (spec / pickle / sugar / mm / deepcopy) on the EMPTY subset, one-row subsets, the null-free rows, the null rows, "
+    "mixed subsets, duplications, permutations; oracle: every row replayed alone equals its row of the fitted matrix and every "
+    "follow-up is the concatenation of the rows of its subset (0 rows for the empty one); cc() is left out (C12). "
     "non-trivial = a stateful transform or a categorical factor and at least one follow-up that is not the training "
     "frame (session: both specs called); distinct by canonical JSON"
 )
@@ -1055,6 +1066,279 @@ def gen_dict_case(rng):
     return dict(kind="dict", n=n, cols=cols, tr=e["tr"], followups=fus)
 
 
+# ----------------------------------------------------------------------------- stream `cells`: storage of the cells
+
+CELL_G = ["int64", "int32", "Int64", "Int32", "UInt8", "arrow_int64", "float64", "str"]
+CELL_X = ["float64", "int64", "Int64", "arrow_int64", "arrow_float64"]
+CELL_NULLABLE = {"Int64", "Int32", "UInt8", "arrow_int64", "arrow_float64", "float64", "str"}
+
+
+def gen_cells_case(rng, tier):
+    """EVERY BUILT-IN TRANSFORM IS ROW BY ROW WHATEVER THE STORAGE: `hashed(...)` (and center / scale / poly / bs / cr /
+    C()) over integer, nullable-integer (pandas masked), Arrow-backed, float and text columns — in a pandas frame or a
+    pyarrow table —, fitted on all pool rows, replayed on the EMPTY subset, on one-row subsets, on the null-free rows of
+    a column that holds nulls, on subsets that contain the nulls, on duplications and permutations."""
+    n = rng.randint(4, 9)
+    gs, xs = rng.choice(CELL_G), rng.choice(CELL_X)
+    g = [rng.randint(0, 6) for _ in range(n)]
+    x = rng.sample(range(-4, 12), n)
+    a = [rng.choice(["u", "v", "w"]) for _ in range(n)]
+    a[0], a[1] = "u", "v"
+    if gs in CELL_NULLABLE and rng.random() < 0.6:
+        for i in rng.sample(range(n), rng.randint(1, 2)):
+            g[i] = None
+    if xs in CELL_NULLABLE and rng.random() < 0.25:
+        x[rng.randrange(n)] = None
+    atoms = {}
+
+    def hashed_atom():
+        v = rng.choice(["g", "g", "g", "a"])
+        lv = rng.randint(2, 9)
+        spans = rng.random() < 0.35
+        src = f"hashed({v}, levels={lv}" + (", spans_intercept=True" if spans else "") + ")"
+        atoms[src] = dict(k="hashed", var=v, levels=lv, spans=spans)
+        return src
+
+    def other_atom():
+        r = rng.random()
+        if r < 0.15:
+            src, e = "x", col("x")
+        elif r < 0.45:
+            src, e = set_text(*gen_scale_call(rng, "x", col("x")))
+        elif r < 0.58:
+            src, e = set_text(*gen_poly_call(rng, "x", col("x")))
+        elif r < 0.7:
+            src = "bs(x, df=4, extrapolation='clip')"
+            e = call(src, dict(kind="bs", df=4, knots=None, degree=3, intercept=False, lower=None, upper=None, mode="clip"),
+                     col("x"), fn="bs", kw=dict(df=4, extrapolation="clip"))
+        elif r < 0.8:
+            src = "cr(x, df=3)"
+            e = call(src, dict(kind="cs", df=3, knots=None, lower=None, upper=None, constraints=None, cyclic=False,
+                               mode="extend"), col("x"), fn="cr", kw=dict(df=3))
+        else:
+            src, sem = rng.choice([
+                ("a", dict(k="cat", var="a", contrast=dict(c="treatment", base=None), viaC=False)),
+                ("C(a)", dict(k="cat", var="a", contrast=dict(c="treatment", base=None), viaC=True)),
+                ("C(a, contr.sum)", dict(k="cat", var="a", contrast=dict(c="sum", base=None), viaC=True))])
+            atoms[src] = sem
+            return src
+        atoms[src] = dict(k="num", e=e)
+        return src
+
+    h = hashed_atom()
+    terms = [h if rng.random() < 0.75 else f"{h}:x"]
+    if ":x" in terms[0]:
+        atoms["x"] = dict(k="num", e=col("x"))
+    for _ in range(rng.choice([0, 1, 1, 2])):
+        t = other_atom() if rng.random() < 0.8 else hashed_atom()
+        if t not in terms:
+            terms.append(t)
+    nulls = [i for i in range(n) if g[i] is None or x[i] is None]
+    clean = [i for i in range(n) if i not in nulls]
+    fus = [[], [rng.randrange(n)], list(range(n))]
+    if nulls:
+        fus += [list(clean), list(nulls), [rng.choice(nulls)] + rng.sample(clean, min(2, len(clean)))]
+    for _ in range(rng.randint(1, 3)):
+        k = rng.random()
+        fus.append(sorted(rng.sample(range(n), rng.randint(1, n))) if k < 0.5 else [rng.randrange(n) for _ in range(rng.randint(1, n + 2))])
+    rng.shuffle(fus)
+    return dict(kind="cells", n=n, container=rng.choice(["pandas", "pandas", "arrow"]), g=dict(storage=gs, vals=g),
+                x=dict(storage=xs, vals=x), a=a, train=list(range(n)), formula=rng.choice(["", "", "0 + "]) + " + ".join(terms),
+                atoms=atoms, efr=rng.random() < 0.7, output=rng.choice(["pandas", "numpy", "sparse"]),
+                na_action="drop" if any(v is None for v in x) or rng.random() < 0.6 else "ignore",
+                followups=[dict(rows=r, route=rng.choice(["spec", "spec", "pickle", "sugar", "mm", "deepcopy"])) for r in fus])
+
+
+def cells_text(c, var, i):
+    """the text a cell is hashed as — the cell's own `str`, whatever the storage of the column and whatever the other
+    rows hold (None: a null cell, whose text is the container's business)"""
+    if var == "a":
+        return c["a"][i]
+    v = c["g"]["vals"][i]
+    if v is None:
+        return None
+    st = c["g"]["storage"]
+    return f"k{v}" if st == "str" else (repr(float(v)) if st == "float64" else str(int(v)))
+
+
+def cells_bucket(c, sem, i):
+    import hashlib
+
+    t = cells_text(c, sem["var"], i)
+    return None if t is None else int(hashlib.md5(t.encode()).hexdigest(), 16) % sem["levels"]
+
+
+def cells_data(c):
+    import pyarrow
+
+    def pa_type(st):
+        return {"int64": pyarrow.int64(), "int32": pyarrow.int32(), "Int64": pyarrow.int64(), "Int32": pyarrow.int32(),
+                "UInt8": pyarrow.uint8(), "arrow_int64": pyarrow.int64(), "float64": pyarrow.float64(),
+                "arrow_float64": pyarrow.float64(), "str": pyarrow.string()}[st]
+
+    def vals(d):
+        if d["storage"] == "str":
+            return [None if v is None else f"k{v}" for v in d["vals"]]
+        if "float" in d["storage"]:
+            return [None if v is None else float(v) for v in d["vals"]]
+        return list(d["vals"])
+
+    if c["container"] == "arrow":
+        return pyarrow.table({"g": pyarrow.array(vals(c["g"]), type=pa_type(c["g"]["storage"])),
+                              "x": pyarrow.array(vals(c["x"]), type=pa_type(c["x"]["storage"])),
+                              "a": pyarrow.array(c["a"], type=pyarrow.string())})
+
+    def pd_col(d):
+        st, v = d["storage"], vals(d)
+        if st in ("int64", "int32"):
+            return numpy.array(v, dtype=st)
+        if st in ("Int64", "Int32", "UInt8"):
+            return pandas.array(v, dtype=st)
+        if st.startswith("arrow_"):
+            return pandas.array(v, dtype=pandas.ArrowDtype(pa_type(st)))
+        if st == "float64":
+            return numpy.array([numpy.nan if t is None else t for t in v], dtype=float)
+        return pandas.Series(v, dtype=object)
+
+    return pandas.DataFrame({"g": pd_col(c["g"]), "x": pd_col(c["x"]), "a": pandas.Series(c["a"], dtype=object)})
+
+
+def cells_take(c, data, rows):
+    if c["container"] == "arrow":
+        import pyarrow
+
+        return data.take(pyarrow.array(rows, type=pyarrow.int64()))
+    return data.iloc[rows]
+
+
+def impl_cells(c):
+    from formulaic import Formula, model_matrix
+    from formulaic.utils.code import format_expr
+
+    warnings.simplefilter("ignore")
+    data = cells_data(c)
+    out = {}
+    exprs = {}
+    for src in c["atoms"]:
+        exprs[src] = list(Formula("0 + " + src))[0].factors[0].expr
+    out["exprs"] = exprs
+    calls = []
+    for sem in c["atoms"].values():
+        if sem.get("k") == "num":
+            walk_calls(sem["e"], calls)
+    out["norm"] = sorted({(e["text"], format_expr(e["text"])) for e in calls})
+    out["elem"] = []
+    try:
+        with numpy.errstate(all="ignore"):
+            mm = model_matrix(c["formula"], cells_take(c, data, c["train"]), ensure_full_rank=c["efr"], output=c["output"],
+                              na_action=c["na_action"])
+    except Exception as e:
+        return dict(out, fit=dict(error=type(e).__name__, msg=str(e)[:300]))
+    spec = mm.model_spec
+    out["terms"] = [[dict(x=f.expr, m=f.eval_method.value) for f in t.factors] for t in spec.formula]
+    fit = mat_obs(mm, c["output"])
+    fit["spec"] = spec_obs(spec)
+    out["fit"] = fit
+    roots = []
+    for st in spec.transform_state.values():
+        _roots_of(st, roots)
+    out["roots"] = [ffs(r) for r in roots if math.isfinite(r)]
+    out["params"] = {k: node_params(st) for k, st in spec.transform_state.items()}
+    before = repr(spec_obs(spec))
+    ref = []
+    for i in range(c["n"]):
+        try:
+            with numpy.errstate(all="ignore"):
+                r = mat_obs(spec.get_model_matrix(cells_take(c, data, [i])), c["output"])
+            ref.append(dict(names=r["names"], row=r["rows"][0] if r["rows"] else None, nrows=r["shape"][0]))
+        except Exception as e:
+            ref.append(dict(error=type(e).__name__, msg=str(e)[:200]))
+    out["ref"] = ref
+    cache, reps = {}, []
+    for fu in c["followups"]:
+        try:
+            with numpy.errstate(all="ignore"):
+                m2 = replay_route(fu["route"], mm, spec, cells_take(c, data, fu["rows"]), cache)
+            o2 = mat_obs(m2, c["output"])
+            o2["spec_same"] = repr(spec_obs(m2.model_spec)) == before
+            reps.append(o2)
+        except Exception as e:
+            reps.append(dict(error=type(e).__name__, msg=str(e)[:200]))
+    out["replays"] = reps
+    out["edits"] = [None] * len(reps)
+    out["state_unchanged"] = repr(spec_obs(spec)) == before
+    return out
+
+
+def cells_as_replay(c):
+    """the case as the model sees it (a `replay` case): `hashed(v, levels=L)` is the categorical coding, over the
+    nominated levels 0..L-1, of the column of per-cell buckets (md5 of the cell's own text, computed by the harness).
+    None: outside the model (null cells are C06's; a hashed factor that does not span the intercept under
+    ensure_full_rank has no counterpart among the model's categorical factors) — oracle only."""
+    if any(v is None for v in c["g"]["vals"] + c["x"]["vals"]):
+        return None
+    hs = {src: sem for src, sem in c["atoms"].items() if sem["k"] == "hashed"}
+    if c["efr"] and any(not sem["spans"] for sem in hs.values()):
+        return None
+    lv = sorted(set(c["a"]))
+    cat = {"a": dict(levels=lv, codes=[lv.index(t) for t in c["a"]], declared=False)}
+    atoms = {}
+    for src, sem in c["atoms"].items():
+        if sem["k"] == "hashed":
+            name = f"__h{len(cat)}"
+            cat[name] = dict(levels=list(range(sem["levels"])), codes=[cells_bucket(c, sem, i) for i in range(c["n"])], declared=False)
+            atoms[src] = dict(k="cat", var=name, contrast=dict(c="treatment", base=None), viaC=True,
+                              levels=[lab(k) for k in range(sem["levels"])])
+        else:
+            atoms[src] = sem
+    return dict(kind="replay", n=c["n"], num={"x": [fs(v) for v in c["x"]["vals"]]}, cat=cat, train=c["train"],
+                formula=c["formula"], atoms=atoms, efr=c["efr"], output=c["output"], cluster=False, followups=c["followups"])
+
+
+def oracle_cells(c, o):
+    fit = o.get("fit")
+    if fit is None or "error" in fit:
+        return None  # fitting is C02/C06/C12/C13's business; nothing to replay
+    if any(not math.isfinite(v) for r in fit["rows"] for v in r):
+        return None
+    names, ref = fit["names"], o["ref"]
+    for i, r in enumerate(ref):
+        if "error" in r:
+            return f"the one-row subset (training row {i}) raised {r['error']}: {r.get('msg', '')[:120]}"
+        if r["names"] != names:
+            return f"one-row subset (training row {i}): column names {r['names']} differ from the fitted {names}"
+        if r["nrows"] > 1:
+            return f"one-row subset (training row {i}) gave {r['nrows']} rows"
+    kept = [i for i in c["train"] if ref[i]["nrows"] == 1]
+    if fit["shape"][0] != len(kept):
+        return (f"the fitted matrix has {fit['shape'][0]} rows, but {len(kept)} of the training rows yield a row when "
+                f"replayed alone ({kept})")
+    for k, i in enumerate(kept):
+        if not _rows_close(ref[i]["row"], fit["rows"][k]):
+            return (f"training row {i} (g={c['g']['vals'][i]!r} stored as {c['g']['storage']}, x={c['x']['vals'][i]!r} as "
+                    f"{c['x']['storage']}, {c['container']}): replayed alone it gives {ref[i]['row']}, its row in the fitted "
+                    f"matrix is {fit['rows'][k]} [an output row depends on the other rows of the column]")
+    for k, (fu, rp) in enumerate(zip(c["followups"], o["replays"])):
+        what = f"follow-up {k} via {fu['route']} on the subset {fu['rows']} of the training rows"
+        if "error" in rp:
+            return f"{what} raised {rp['error']}: {rp.get('msg', '')[:160]}"
+        if rp["names"] != names:
+            return f"{what}: column names {rp['names']} differ from the fitted {names}"
+        want = [ref[i]["row"] for i in fu["rows"] if ref[i]["nrows"] == 1]
+        if rp["shape"][0] != len(want):
+            return f"{what}: {rp['shape'][0]} rows, the rows of the subset yield {len(want)}"
+        if rp["shape"][1] != len(names):
+            return f"{what}: {rp['shape'][1]} columns for {len(names)} names"
+        for j, (ra, rb) in enumerate(zip(rp["rows"], want)):
+            if not _rows_close(ra, rb):
+                return f"{what}: output row {j} is {ra}, the corresponding row of the fitted matrix is {rb}"
+        if not rp.get("spec_same", True):
+            return f"{what}: the spec attached to the result differs from the fitted spec"
+    if not o.get("state_unchanged", True):
+        return "the recorded state of the spec changed during the follow-ups"
+    return None
+
+
 def cases(rng, tier):
     n = {"quick": 200, "thorough": 4000, "search": 120}[tier]
     for _ in range(n):
@@ -1076,9 +1360,13 @@ def cases(rng, tier):
         yield gen_dict_case(rng)
     for _ in range(max(12, n // 12)):
         yield gen_sparse_case(rng)
+    for _ in range(max(60, n // 4)):
+        yield gen_cells_case(rng, tier)
 
 
 def describe(c):
+    if c["kind"] == "cells":
+        return f"cells:{c['container']},g={c['g']['storage']},x={c['x']['storage']}"
     if c["kind"] == "dict":
         return "dict-valued data"
     if c["kind"] == "sparse":
@@ -1099,6 +1387,8 @@ def describe(c):
 
 
 def nontrivial(c):
+    if c["kind"] == "cells":
+        return True
     if c["kind"] == "dict":
         return len(c["cols"]) > 1
     if c["kind"] == "sparse":
@@ -1704,6 +1994,8 @@ def impl_parts(c):
 
 
 def impl(c):
+    if c["kind"] == "cells":
+        return impl_cells(c)
     if c["kind"] == "parts":
         return impl_parts(c)
     if c["kind"] == "dict":
@@ -1922,6 +2214,11 @@ def request_parts(c, o):
 
 
 def request(c, o):
+    if c["kind"] == "cells":
+        c2 = cells_as_replay(c)
+        if c2 is None or "harness_exception" in o or "error" in o.get("fit", {"error": 1}):
+            return dict(op="noop")
+        return request(c2, o)
     if c["kind"] == "parts":
         return request_parts(c, o)
     if c["kind"] == "sparse":
@@ -2268,6 +2565,16 @@ def oracle_parts(c, o):
 def agree(c, o, m):
     if "driver_error" in m:
         return "driver: " + m["driver_error"][:300]
+    if c["kind"] == "cells":
+        c2 = cells_as_replay(c)
+        if c2 is None or "harness_exception" in o or not m or "fit" not in m or "error" in o.get("fit", {"error": 1}):
+            return None  # outside the model: the oracle decides
+        # the levels of a hashed factor live in the closure of its encoder, not in encoder_state
+        hashed_exprs = {o["exprs"][src] for src, sem in c["atoms"].items() if sem["k"] == "hashed"}
+        for part in [m["fit"]] + list(m.get("replays", [])):
+            if isinstance(part.get("spec"), dict):
+                part["spec"]["estate"] = [kv for kv in part["spec"]["estate"] if kv[0] not in hashed_exprs]
+        c = c2
     if c["kind"] == "parts":
         return None if "harness_exception" in o else agree_parts(c, o, m)
     if c["kind"] == "session":
@@ -2399,6 +2706,8 @@ def oracle_dict(c, o):
 def oracle(c, o):
     if "harness_exception" in o:
         return "harness could not run the implementation: " + o["harness_exception"]
+    if c["kind"] == "cells":
+        return oracle_cells(c, o)
     if c["kind"] == "dict":
         return oracle_dict(c, o)
     if c["kind"] == "session":
@@ -2517,5 +2826,7 @@ LEVEL_NOTE = (
     "Partial: the pickle byte stream / wrapt proxies are exercised (real pickle/copy round trips in the correspondence), "
     "not modelled; numpy routines enter as deterministic parameters; float rounding not modelled (1e-9); missing values "
     "and `lag` are outside (C06 / excluded); bs/cr/poly of a multi-column argument and back-quoted names in stateful "
-    "calls are outside the model; row labels are not modelled (comparison by position)."
+    "calls are outside the model; row labels are not modelled (comparison by position); `hashed` enters the model as a "
+    "categorical coding of harness-computed buckets, its replay on null-containing / differently stored columns is checked "
+    "by the oracle only."
 )
